@@ -137,6 +137,7 @@ func (m *machine) numBuiltin(name string, args []Value, rt *wgen.Type) Value {
 			return v
 		}
 		var acc Value
+		ovf0 := m.ev.IntOverflow
 		for i := range a0.E {
 			p := m.scalarBinary("*", a0.E[i], args[1].E[i])
 			p.T = rt
@@ -146,6 +147,9 @@ func (m *machine) numBuiltin(name string, args []Value, rt *wgen.Type) Value {
 				acc = m.scalarBinary("+", acc, p)
 				acc.T = rt
 			}
+		}
+		if a0.T.S == wgen.I32 && m.ev.IntOverflow > ovf0 {
+			m.ev.DotIntOverflow++
 		}
 		return acc
 	case "cross":
